@@ -428,7 +428,17 @@ impl<C: Config> Engine<C> {
         // the root of this request: dirty propagation may have stopped at a
         // firewall below the callee, so its clean edges prove nothing and it
         // has to be repaired pedantically.
-        let pedantic_caller = caller.pedantic_for_new_callee(&query.id);
+        // The same holds for a dependency whose transitive firewall callees
+        // are no longer the ones the calling query has accounted for.
+        let pedantic_caller = if caller.may_turn_pedantic() {
+            let current = self
+                .peek_transitive_firewall_callees_fingerprint(&query.id)
+                .await;
+
+            caller.pedantic_for_unaccounted_callee(&query.id, current)
+        } else {
+            None
+        };
         let caller = pedantic_caller.as_ref().unwrap_or(caller);
 
         // register the dependency for the sake of detecting cycles
